@@ -36,6 +36,16 @@ def notifies(E):
     return [i for i, e in enumerate(E) if e.kind == 'call' and strip_targs(e.name) == 'tulz::Subject::notify']
 
 
+def held_values(f, E, upto):
+    """(value of m_val on entry, value of m_val just before event index `upto`) as abstract values"""
+    node = next((n for n in f.nodes() if n.is_field('m_val')), None)
+    init = ObDomain().init_field(('this', 'm_val'), node)
+    cur = init
+    for e in E[:upto]:
+        if e.kind == 'write' and e.obj == 'm_val' and e.name == 'field': cur = e.val
+    return init, cur
+
+
 def is_m_val(v):
     return isinstance(v, Ref) and v.loc[0] == 'f' and v.loc[1][-1] == 'm_val'
 
@@ -66,7 +76,7 @@ def run(facts, rep, tier):
             elif base in COMPOUND:
                 n_fn += 1; compound_rules(facts, rep, f, label, base)
     rep.count('functions', n_fn)
-    rep.floor('operator instances analysed', n_fn, 30)
+    rep.floor('operator instances analysed', n_fn, 20)
 
 
 def notify_args_ok(rep, E, label, f):
@@ -96,16 +106,23 @@ def assign_rules(facts, rep, f, label):
                     why = f'{len(w)} store(s) and {len(n)} notification(s) on the changing path' + (', notification before the store (subscribers see the old value)' if w and n and n[0] < w[0] else '')
                 rep.check(ok, 'OB.2', f'{label} row eq=false: store once, then notify once', E[n[0]].site if n else f.shortloc(), why, key=f'OB.2|neq|{strip_targs(f.qname)}', fn=f.name)
             c = E[cmp_[0]]
-            ok_args = len(c.args) == 2 and c.node is not None
             a0 = c.node.ns('args')[1] if c.node.ck == 'op' and len(c.node.ns('args')) >= 3 else None
             a1 = c.node.ns('args')[2] if c.node.ck == 'op' and len(c.node.ns('args')) >= 3 else None
             while a1 is not None and a1.k in ('construct', 'cast') and (a1.ns('args') if a1.k == 'construct' else [a1.n('sub')]):
                 nxt = (a1.ns('args')[0] if a1.k == 'construct' else a1.n('sub'))
                 if nxt is None: break
                 a1 = nxt
+            # by value: the comparator sees {the held value, the new value}
+            init, cur = held_values(f, E, cmp_[0])
+            newv = 'param:' + f.d['params'][0]['name'] if f.d.get('params') else None
+            got = {repr(x) for x in c.args}
+            inst = f'{label}: compares the held value with the new value'
+            if len(c.args) == 2 and repr(cur) in got and any(newv in g for g in got): rep.ok('OB.2', inst, c.site)
+            elif len(c.args) == 2 and (len(got) == 1 or not any(newv in g for g in got)) and all(('m_val' in g or 'param:' in g) for g in got):
+                rep.violation('OB.2', inst, c.site, f'compares {sorted(got)}: not the held value against the new one', key=f'OB.2|cmpargs|{strip_targs(f.qname)}', fn=f.name)
+            elif a0 is not None and a1 is not None and a0.is_field('m_val') and a1.k == 'ref' and a1.dk == 'param': rep.ok('OB.2', inst, c.site)      # a converted copy of the parameter
+            else: rep.inconclusive('OB.2', inst, c.site, f'comparator operands {sorted(got)} not followed')
             if a0 is not None and a1 is not None:
-                good = a0.is_field('m_val') and a1.k == 'ref' and a1.dk == 'param'
-                rep.check(good, 'OB.2', f'{label}: compares the held value with the new value', c.site, f'compares `{a0.text()[:30]}` with `{a1.text()[:30]}`', key=f'OB.2|cmpargs|{strip_targs(f.qname)}', fn=f.name)
                 SCAL = {'int', 'unsigned int', 'long', 'unsigned long', 'short', 'unsigned short', 'char', 'unsigned char', 'bool', 'float', 'double', 'long double', 'long long', 'unsigned long long'}
                 pty = (a1.d.get('decltype') or '').replace('&&', '').replace('&', '').replace('const ', '').strip()
                 if a1.k == 'ref' and pty not in SCAL:
@@ -132,22 +149,32 @@ def apply_rules(facts, rep, f, label):
                 rep.check(False, 'OB.1', f'{label} row eq={eq}', f.shortloc(), f'{len(cmp_)} comparisons of old and new value', key=f'OB.1|cmp|{strip_targs(f.qname)}', fn=f.name); continue
             c = E[cmp_[0]]
             ok_order = bool(calls) and calls[0] < cmp_[0]
-            a0 = c.node.ns('args')[1] if c.node.ck == 'op' and len(c.node.ns('args')) >= 3 else None
-            a1 = c.node.ns('args')[2] if c.node.ck == 'op' and len(c.node.ns('args')) >= 3 else None
-            good = a0 is not None and a1 is not None and a0.k == 'ref' and a0.dk == 'local' and a1.is_field('m_val')
-            if good:
-                # `old` is initialised from m_val before the callable runs
-                decl = None
-                for x in f.nodes():
-                    if x.k == 'decl':
-                        for v in x.vars:
-                            if v['decl'] == a0.decl: decl = (x, v)
-                init_ok = decl is not None and decl[1].get('init') and any(y.is_field('m_val') for y in Node(f.tu, decl[1]['init']).walk()) and not decl[1].get('isref')
-                callable_nodes = [E[i].node for i in calls if E[i].node is not None]
-                before = decl is not None and callable_nodes and f.cfg.reaches(decl[0], callable_nodes[0]) if decl is not None else False
-                good = bool(init_ok) and (before or not callable_nodes)
-            rep.check(good and ok_order, 'OB.1', f'{label}: eq(copy taken before the callable, current value)', c.site,
-                      'the comparison does not use a copy of the value taken before the callable ran', key=f'OB.1|old|{strip_targs(f.qname)}', fn=f.name)
+            init, cur = held_values(f, E, cmp_[0])
+            got = [repr(x) for x in c.args]
+            inst = f'{label}: eq(copy taken before the callable, current value)'
+            changed = repr(init) != repr(cur)
+            if len(got) == 2 and set(got) == {repr(init), repr(cur)} and changed and ok_order: rep.ok('OB.1', inst, c.site)
+            elif len(got) == 2 and changed and len(set(got)) == 1 and got[0] in (repr(init), repr(cur)):
+                rep.violation('OB.1', inst, c.site, 'the comparison does not use a copy of the value taken before the callable ran' + f' (both operands are {got[0]})', key=f'OB.1|old|{strip_targs(f.qname)}', fn=f.name)
+            elif not ok_order and calls:
+                rep.violation('OB.1', inst, c.site, 'the comparison runs before the callable: the change is never seen', key=f'OB.1|old|{strip_targs(f.qname)}', fn=f.name)
+            else:
+                # class-type values: copies are not distinguishable by value; fall back to the shape `eq(local copy made before the callable, m_val)`
+                a0 = c.node.ns('args')[1] if c.node.ck == 'op' and len(c.node.ns('args')) >= 3 else None
+                a1 = c.node.ns('args')[2] if c.node.ck == 'op' and len(c.node.ns('args')) >= 3 else None
+                good = a0 is not None and a1 is not None and a0.k == 'ref' and a0.dk == 'local' and a1.is_field('m_val')
+                if good:
+                    decl = None
+                    for x in f.nodes():
+                        if x.k == 'decl':
+                            for v in x.vars:
+                                if v['decl'] == a0.decl: decl = (x, v)
+                    init_ok = decl is not None and decl[1].get('init') and any(y.is_field('m_val') for y in Node(f.tu, decl[1]['init']).walk()) and not decl[1].get('isref')
+                    callable_nodes = [E[i].node for i in calls if E[i].node is not None]
+                    before = decl is not None and callable_nodes and f.cfg.reaches(decl[0], callable_nodes[0]) if decl is not None else False
+                    good = bool(init_ok) and (before or not callable_nodes)
+                if good and ok_order: rep.ok('OB.1', inst, c.site)
+                else: rep.inconclusive('OB.1', inst, c.site, f'comparator operands {got} not followed (held value before {init}, after {cur})')
             ok = (len(n) == 0) if eq else (len(n) == 1 and n[0] > cmp_[0])
             rep.check(ok, 'OB.1', f'{label} row eq={eq}: {"nobody is notified" if eq else "subscribers are notified exactly once, after the change"}', E[n[0]].site if n else f.shortloc(),
                       (f'{len(n)} notification(s) although the value did not change' if eq else f'{len(n)} notification(s) for a change'), key=f'OB.1|notify|{eq}|{strip_targs(f.qname)}', fn=f.name)
@@ -177,20 +204,44 @@ def incdec_rules(facts, rep, f, label, base):
 
 
 def compound_rules(facts, rep, f, label, base):
+    """operator(+)=: on every path the held value is modified exactly once, by `(+)=` (wherever the operation is written: inline, in a
+    closure handed to apply(), through a helper), subscribers are notified once afterwards iff the comparator says the value changed"""
     op = COMPOUND[base]
-    lams = [n for n in f.nodes() if n.k == 'lambda']
-    calls = [n for n in f.nodes() if n.k == 'call' and n.callee_in_root and strip_targs(n.calleeq or '') == f'{OB}::apply']
-    ok = len(lams) == 1 and len(calls) == 1
-    rep.check(ok, 'OB.5', f'{label}: delegates to apply() with one closure', f.shortloc(), f'{len(calls)} apply() call(s), {len(lams)} closure(s)', key=f'OB.5|delegate|{base}', fn=f.name)
-    if not ok: return
-    lam = lams[0]; lf = facts.lambda_fn(lam)
-    if lf is None:
-        rep.inconclusive('OB.5', label, lam.shortloc(), 'closure body not extracted'); return
-    p0 = lf.d['params'][0]['decl'] if lf.d['params'] else None
-    found = []
-    for n in lf.nodes():
-        if n.k == 'binop' and n.op in COMPOUND.values() and n.n('lhs') is not None and n.n('lhs').k == 'ref' and n.n('lhs').decl == p0: found.append(n.op)
-        if n.k == 'call' and n.ck == 'op' and n.op in COMPOUND.values() and n.ns('args') and n.ns('args')[0] is not None and n.ns('args')[0].k == 'ref' and n.ns('args')[0].decl == p0: found.append(n.op)
-    rep.check(found == [op], 'OB.5', f'{label}: the closure applies `{op}` to the held value', lf.shortloc(), f'the closure applies {found or "nothing"} instead of `{op}`', key=f'OB.5|op|{base}', fn=f.name)
-    byref = [c for c in lam.captures or [] if c['mode'] == 'ref' and c.get('dk') in ('param', 'local') and not c.get('isref')]
-    rep.check(not byref, 'OB.5', f'{label}: the operand is owned by the closure', lam.shortloc(), f'captures {byref[0]["var"] if byref else ""} by reference', key=f'OB.5|cap|{base}', fn=f.name)
+    key_ = strip_targs(f.qname)
+    for eq in (True, False):
+        res = run_paths(facts, f, ObDomain(dict(eq=eq)))
+        for P, E in res:
+            if P.end in ('throw', 'noreturn'): continue
+            mods = []
+            for i, e in enumerate(E):
+                if e.kind == 'write' and e.obj == 'm_val' and e.name == 'field' and e.node is not None:
+                    n = e.node
+                    if n.k == 'binop' and n.op in COMPOUND.values(): mods.append((i, n.op))
+                    elif n.k == 'binop' and n.op == '=':
+                        r = n.n('rhs')
+                        while r is not None and r.k == 'cast': r = r.n('sub')
+                        if r is not None and r.k == 'binop' and r.op + '=' in COMPOUND.values() and r.n('lhs') is not None and (r.n('lhs').is_field('m_val') or r.n('lhs').k == 'ref'): mods.append((i, r.op + '='))
+                        else: mods.append((i, '= ?'))
+                    else: mods.append((i, '?'))
+                elif e.kind == 'call' and e.obj == 'm_val' and e.name.split('::')[-1].startswith('operator') and e.name.split('::')[-1][8:] in COMPOUND.values():
+                    mods.append((i, e.name.split('::')[-1][8:]))
+                elif e.kind == 'call' and e.obj == 'm_val' and e.name.split('::')[-1] in ('operator=', 'assign', 'swap', 'clear', 'append'): mods.append((i, '?'))
+            inst = f'{label} row eq={eq}: the held value is modified exactly once, by `{op}`'
+            ops = [m[1] for m in mods]
+            site = E[mods[0][0]].site if mods else f.shortloc()
+            if ops == [op]: rep.ok('OB.5', inst, site)
+            elif ops and all(o in COMPOUND.values() for o in ops):
+                rep.violation('OB.5', inst, site, f'applies {ops} instead of `{op}`', key=f'OB.5|op|{base}', fn=f.name)
+            elif not ops: rep.inconclusive('OB.5', inst, site, 'no modification of m_val was seen on this path (operation not followed)')
+            else: rep.inconclusive('OB.5', inst, site, f'm_val is modified by {ops}: not recognised as `{op}`')
+            n = notifies(E)
+            if ops == [op]:
+                want = 0 if eq else 1
+                okn = len(n) == want and (not n or n[0] > mods[0][0])
+                rep.check(okn, 'OB.5', f'{label} row eq={eq}: {"nobody is notified" if eq else "subscribers are notified exactly once, after the operation"}', E[n[0]].site if n else f.shortloc(),
+                          f'{len(n)} notification(s)' + (' before the operation' if n and n[0] < mods[0][0] else ''), key=f'OB.5|notify|{base}|{eq}', fn=f.name)
+            notify_args_ok(rep, E, label, f)
+    # the operand must be owned by whatever closure carries it (no reference to a by-value parameter / local)
+    for lam in [n for n in f.nodes() if n.k == 'lambda']:
+        byref = [c for c in lam.captures or [] if c['mode'] == 'ref' and c.get('dk') in ('param', 'local') and not c.get('isref')]
+        rep.check(not byref, 'OB.5', f'{label}: the operand is owned by the closure', lam.shortloc(), f'captures {byref[0]["var"] if byref else ""} by reference', key=f'OB.5|cap|{base}', fn=f.name)
